@@ -26,7 +26,8 @@ PROFILES = [
 OWN = {
     'C05': {'history_dependent_decode', 'create_flag_dependent', 'history_dependent_enumeration',
             'history_dependent_statistics', 'same_instance_returned_twice', 'instance_mutation_leaks',
-            'pickle_changes_behaviour', 'history_exception', 'process_dependent_decode'},
+            'pickle_changes_behaviour', 'history_exception', 'process_dependent_decode',
+            'returned_instance_changed_later'},
     'C15': {'fixed_rows_not_subset', 'fixed_rows_lost', 'fixed_rows_wrong_value', 'fixed_count_mismatch',
             'fixed_decode_outside_subset', 'free_does_not_restore', 'fix_connection_variable_accepted',
             'fix_out_of_range_accepted', 'rejected_fix_changed_state', 'fixed_variable_still_listed',
@@ -119,7 +120,24 @@ def run_history(prop, sp, enc, col, emit, rnd, depth, model):
         return 0
     fixed = {}     # index -> value, in insertion order
     returned = []  # every instance handed out (kept alive)
+    snaps = []     # what each of them stored when it was handed out (None once the harness itself mutated it)
     ops_log = []
+
+    def snap(g_):
+        ob = O.instance(g_, P.b)
+        return [ob['nodes'], ob['dv'], ob['metric']]
+
+    def recheck(reason):
+        # returned instances are independent objects: nothing that happens afterwards may change what they hold
+        for k_, (g_, s_) in enumerate(zip(returned, snaps)):
+            if s_ is None:
+                continue
+            col.count('monitor_returned_instance_rechecks')
+            now = snap(g_)
+            if now != s_:
+                emit('returned_instance_changed_later', {'ops': ops_log, 'instance_no': k_, 'held': s_[1:], 'holds_now': now[1:],
+                                                         'after': reason, 'enc': enc}, where={'after': reason})
+                snaps[k_] = None
     n_steps = 0
     fx = fixable(P)
     for step in range(depth):
@@ -161,6 +179,8 @@ def run_history(prop, sp, enc, col, emit, rnd, depth, model):
                     g.set_des_var_value(n, 0 if n.is_discrete else n.bounds[1])
                 for n in g.metric_nodes:
                     g.set_metric_value(n, 123.5)
+                snaps[op[1]] = None
+                recheck('mutate')
                 continue
             if op[0] == 'pickle':
                 gp2 = pickle.loads(pickle.dumps(P.gp))
@@ -188,7 +208,9 @@ def run_history(prop, sp, enc, col, emit, rnd, depth, model):
                     for old in returned:
                         if old is g:
                             emit('same_instance_returned_twice', {'ops': ops_log, 'enc': enc})
+                    recheck('decode')
                     returned.append(g)
+                    snaps.append(snap(g))
                 cmpkeys = ['x', 'a'] + (['arch'] if 'arch' in got else [])
                 if 'exc' in got or 'exc' in want:
                     if got.get('exc') != want.get('exc'):
